@@ -28,6 +28,13 @@ class HarnessError(Exception):
     pass
 
 
+class NonTermination(Exception):
+    """the command under test exhausted the default operation budget (it would run forever)"""
+
+
+DEFAULT_BUDGET = 20000      # hooked operations per command; the longest legitimate run in any check is < 1500
+
+
 def _install_fake_datetime():
     import datetime as _dt
     if getattr(_dt.datetime, '_vt_fake', False):
@@ -211,6 +218,9 @@ class Sandbox(object):
         p = dict(plan or {})
         p.setdefault('mounts', spec.get('mounts', ['/']))
         p.setdefault('uid', spec.get('uid', 0))
+        self._own_budget = 'budget' in p
+        if p.get('hooks', True):
+            p.setdefault('budget', DEFAULT_BUDGET)
         if os.environ.get('VT_PLAIN') == '1' and list(p['mounts']) == ['/'] and not (
                 p.get('faults') or p.get('crash_at') or p.get('sched_fd') or p.get('dir_order')):
             p['hooks'] = False           # T1: same cell, no os hooks (single-volume worlds only)
@@ -310,9 +320,13 @@ class Sandbox(object):
         finally:
             os._exit(code)
 
-    def collect(self, pid, files):
+    def collect(self, pid, files, argv=None):
         _, status = os.waitpid(pid, 0)
-        return self.result(status, files)
+        r = self.result(status, files)
+        if r.budget and not getattr(self, '_own_budget', False):
+            raise NonTermination('%s did not finish within %d file-system operations; last operations: %r' % (
+                ' '.join(argv or []), DEFAULT_BUDGET, [t[1:3] for t in r.trace[-4:]]))
+        return r
 
     def result(self, status, files):
         r = Result()
@@ -357,7 +371,7 @@ class Sandbox(object):
         if isinstance(argv, str):
             argv = argv.split()
         pid, files = self.spawn(argv, **kw)
-        return self.collect(pid, files)
+        return self.collect(pid, files, argv)
 
 
 def _probe_denote(args):
